@@ -644,10 +644,13 @@ def run_case(case):
             st, p1, wire = node
             ref_p = np.abs(st) ** 2
             # identical offers get identical answers from the hub, so any matching offer will do
-            off = next((o for o in mcm_offers if o["size"] == shots_here and _close(o["p"], ref_p, 1e-7)), None)
-            if off is None:
+            cands = [o for o in mcm_offers if o["size"] == shots_here and _close(o["p"], ref_p, 1e-7)]
+            # several draws can look like this node's (a measurement that does not change the state leaves the
+            # same distribution one level down); the split is only known if they were all answered alike
+            if not cands or len({tuple(int(i) for i in o["idx"]) for o in cands}) != 1:
                 reconstructable[0] = False
                 return
+            off = cands[0]
             bits = [(int(i) >> (n - 1 - wire)) & 1 for i in off["idx"]]
             n1 = sum(bits)
             k = len(prefix)
